@@ -139,6 +139,9 @@ def tdvp_(psi, H,
     else:
         raise YastnError('TDVP: tdvp method %s not recognized' % method)
 
+    if not psi.is_canonical(to='first'):
+        psi.canonize_(to='first', normalize=normalize)
+
     env = None
     if yield_initial:
         yield TDVP_out(times[0], times[0], time_independent, dt, 0)
